@@ -39,6 +39,19 @@ func okErr(err error) string {
 	}
 	return "ok"
 }
+// okErrNil: "error" only when the error comes with no result; an error together with a result is reported as "partial"
+func okErrNil(err error, resultNil bool) string {
+	if err != nil {
+		if !resultNil {
+			return "partial"
+		}
+		return "error"
+	}
+	if resultNil {
+		return "partial"
+	}
+	return "ok"
+}
 func tf(b bool) string {
 	if b {
 		return "true"
@@ -265,6 +278,52 @@ func recC19(c *ctx) {
 		{"h2c.Ristretto255_XOF_R255MAP_RO", 2, func(a [][]byte) (string, string) {
 			_, err := h2c.Ristretto255_XOF_R255MAP_RO(sha3.NewShake256(), a[0], a[1])
 			return okErr(err), "na"
+		}},
+		// ---- entropy sources delivering exactly a[0] and then failing (in pieces): every entropy-consuming entry point
+		{"entropy.ed25519.GenerateKey", 1, func(a [][]byte) (string, string) {
+			pk, sk, err := ed25519.GenerateKey(r.Entropy(a[0]))
+			return okErrNil(err, pk == nil && sk == nil), "na"
+		}},
+		{"entropy.x25519.GenerateKey", 1, func(a [][]byte) (string, string) {
+			pk, sk, err := x25519.GenerateKey(r.Entropy(a[0]))
+			return okErrNil(err, pk == nil && sk == nil), "na"
+		}},
+		{"entropy.sr25519.GenerateMiniSecretKey", 1, func(a [][]byte) (string, string) {
+			k, err := sr25519.GenerateMiniSecretKey(r.Entropy(a[0]))
+			return okErrNil(err, k == nil), "na"
+		}},
+		{"entropy.sr25519.GenerateSecretKey", 1, func(a [][]byte) (string, string) {
+			k, err := sr25519.GenerateSecretKey(r.Entropy(a[0]))
+			return okErrNil(err, k == nil), "na"
+		}},
+		{"entropy.sr25519.GenerateKeyPair", 1, func(a [][]byte) (string, string) {
+			k, err := sr25519.GenerateKeyPair(r.Entropy(a[0]))
+			return okErrNil(err, k == nil), "na"
+		}},
+		{"entropy.scalar.SetRandom", 1, func(a [][]byte) (string, string) {
+			var s scalar.Scalar
+			_, err := s.SetRandom(r.Entropy(a[0]))
+			return okErr(err), "na"
+		}},
+		{"entropy.merlin.Finalize", 1, func(a [][]byte) (string, string) {
+			g, err := merlin.NewTranscript("e").BuildRng().Finalize(r.Entropy(a[0]))
+			return okErrNil(err, g == nil), "na"
+		}},
+		{"entropy.ed25519.Sign.AddedRandomness", 1, func(a [][]byte) (string, string) {
+			s, err := priv.Sign(r.Entropy(a[0]), msg, &ed25519.Options{AddedRandomness: true})
+			return okErrNil(err, s == nil), "na"
+		}},
+		{"entropy.sr25519.Sign", 1, func(a [][]byte) (string, string) {
+			s, err := kp.Sign(r.Entropy(a[0]), sctx.NewTranscriptBytes(msg))
+			return okErrNil(err, s == nil), "na"
+		}},
+		{"entropy.ecvrf.ProveWithAddedRandomness", 1, func(a [][]byte) (string, string) {
+			p, err := ecvrf.ProveWithAddedRandomness(r.Entropy(a[0]), priv, msg)
+			return okErrNil(err, p == nil), "na"
+		}},
+		{"entropy.ecvrf.ProveWithAddedRandomness_v10", 1, func(a [][]byte) (string, string) {
+			p, err := ecvrf.ProveWithAddedRandomness_v10(r.Entropy(a[0]), priv, msg)
+			return okErrNil(err, p == nil), "na"
 		}},
 		{"merlin.Transcript", 3, func(a [][]byte) (string, string) {
 			t := merlin.NewTranscript(string(a[0]))
